@@ -18,6 +18,9 @@ import (
 type c08Plan struct {
 	Type string `json:"type"`
 	Hex  string `json:"hex"`
+	// Prev: payloads decoded (each into a fresh value of the same type, each judged like Hex) before Hex is: what a
+	// receiver has seen earlier must not widen what it accepts now.
+	Prev []string `json:"prev,omitempty"`
 }
 
 // inRange is the independently written range predicate for a successfully decoded value.
@@ -128,7 +131,15 @@ func c08Run(p c08Plan) *common.Fail {
 	if !ok {
 		return common.Failf("type-missing", "type %q is not registered", p.Type)
 	}
+	for _, h := range p.Prev {
+		if _, f := c08Check(ti, produce(ti.Name), unhx(h)); f != nil {
+			return f
+		}
+	}
 	_, f := c08Check(ti, produce(ti.Name), unhx(p.Hex))
+	if f != nil && len(p.Prev) > 0 {
+		f.Detail += fmt.Sprintf(" (decoded right after the payloads %v of the same type)", p.Prev)
+	}
 	return f
 }
 
@@ -321,6 +332,103 @@ func TestC08(t *testing.T) {
 		rec.NonTrivialEnum(nt)
 		rec.ClassN(fmt.Sprintf("enum-main%d", ti.Main), evals)
 	}
+	// histories of two: every payload of a lattice decoded right after every other one of the same type (a receiver
+	// that remembers what it validated last must not accept more because of it). Dates: every day 1..31 x month 1..12
+	// of a year after every valid date of that year (years 1990, 2000, 2023, 2024, 2089; thorough: all 100); times of
+	// day: the field boundaries; every other fixed-length type: the 81 alphabet pairs in its last two octets.
+	{
+		var pairs, pnt int64
+		pairTry := func(ti typeInfo, x, y []byte) bool {
+			pairs++
+			accX, _ := c08Check(ti, produce(ti.Name), x)
+			accY, f := c08Check(ti, produce(ti.Name), y)
+			if accX && !accY {
+				pnt++
+			}
+			if f != nil && !stop[ti.Name+f.Kind+"pair"] {
+				f.Detail += fmt.Sprintf(" (decoded right after the payload %x of the same type)", x)
+				if common.Report(t, rec, f, c08Plan{Type: ti.Name, Hex: hx(y), Prev: []string{hx(x)}}) {
+					stop[ti.Name+f.Kind+"pair"] = true
+				}
+			}
+			return f == nil
+		}
+		for _, ti := range types {
+			var lattice [][]byte
+			switch {
+			case ti.Main == 11 && ti.WireL == 4:
+				years := []int{1990, 2000, 2023, 2024, 2089}
+				if thorough {
+					years = years[:0]
+					for y := 1990; y <= 2089; y++ {
+						years = append(years, y)
+					}
+				}
+				for _, y := range years {
+					if !mine() {
+						continue
+					}
+					yb := byte(y % 100)
+					var valid, all [][]byte
+					for m := 1; m <= 12; m++ {
+						for dd := 1; dd <= 31; dd++ {
+							p := []byte{0, byte(dd), byte(m), yb}
+							all = append(all, p)
+							if validDate(y, m, dd) {
+								valid = append(valid, p)
+							}
+						}
+					}
+					for _, x := range valid {
+						for _, yy := range all {
+							if !pairTry(ti, x, yy) {
+								break
+							}
+						}
+					}
+				}
+				continue
+			case ti.Main == 10 && ti.WireL == 4:
+				for _, wd := range []int{0, 7} {
+					for _, h := range []int{0, 12, 23, 24, 31} {
+						for _, mi := range []int{0, 59, 60, 63} {
+							for _, se := range []int{0, 59, 60, 63} {
+								lattice = append(lattice, []byte{0, byte(wd<<5 | h), byte(mi), byte(se)})
+							}
+						}
+					}
+				}
+			case ti.WireL >= 2 && ti.WireL <= 16:
+				for _, a := range alpha {
+					for _, b := range alpha {
+						p := make([]byte, ti.WireL)
+						p[ti.WireL-1] = b
+						if ti.WireL > 2 {
+							p[ti.WireL-2] = a
+						} else if a != 0 {
+							continue
+						}
+						lattice = append(lattice, p)
+					}
+				}
+			}
+			if len(lattice) == 0 || !mine() {
+				continue
+			}
+		lat:
+			for _, x := range lattice {
+				for _, y := range lattice {
+					if !pairTry(ti, x, y) {
+						break lat
+					}
+				}
+			}
+		}
+		rec.Eval(pairs)
+		rec.NonTrivialEnum(pnt)
+		rec.ClassN("decode-after-decode pairs", pairs)
+		rec.Exhaustive("11.001: every day/month combination of a year decoded right after every valid date of that year (quick: 5 years, thorough: 1990..2089); 10.001: 160 field-boundary payloads, all ordered pairs; other fixed-length types: all ordered pairs of 81 payloads")
+	}
 	// concurrent decodes into separate instances (every socket has its own receiver goroutine, applications decode in
 	// their handlers): "whenever decoding succeeds the value is in range" holds for each of them. For every main number:
 	// 2..3 goroutines per registered type of it, payloads from the low and the high end of the byte range, each result
@@ -411,6 +519,18 @@ func TestC08(t *testing.T) {
 			copy(p[1:], txt)
 		}
 		plan := c08Plan{Type: ti.Name, Hex: hx(p)}
+		if n > 0 && rapid.IntRange(0, 2).Draw(rt, "with-history") == 0 {
+			// 1..3 earlier payloads: close relatives of p (one octet changed) or p itself
+			for i := 0; i < rapid.IntRange(1, 3).Draw(rt, "n-prev"); i++ {
+				q := append([]byte{}, p...)
+				if rapid.IntRange(0, 3).Draw(rt, "same") > 0 {
+					k := rapid.IntRange(0, n-1).Draw(rt, "at")
+					q[k] = byte(int(q[k]) + rapid.SampledFrom([]int{1, -1, 2, 16, -16, 128, 3, 12}).Draw(rt, "delta-b"))
+				}
+				plan.Prev = append(plan.Prev, hx(q))
+			}
+			rec.Class("rapid-with-history")
+		}
 		wrong := (ti.WireL > 0 && n != ti.WireL) || (ti.WireL == 0 && n < 2)
 		switch {
 		case wrong:
